@@ -16,3 +16,5 @@ for prop, (mods, quals) in E1.items():
     for o in bad: print("    ", o.verdict, o.name, f"{o.secs:.1f}s")
     for u in rep.undecided: print("     UNDECIDED", u[:200])
     for f in rep.faults: print("     FAULT", str(f)[:300])
+    slow = sorted(obs, key=lambda o: -o.secs)[:4]
+    print("     slowest:", ", ".join(f"{o.name.split('/')[-1]}@{o.name.split('[')[0].split('.')[-1]} {o.secs:.1f}s" for o in slow if o.secs > 2.0) or "all < 2s")
